@@ -112,6 +112,95 @@ class HarnessError(Exception):
     pass
 
 
+def run_sharded(binary, args, start, runs, nproc):
+    """Single-threaded worker processes over disjoint run ranges (needed when a violation kills the process:
+    the fault handler reports the run and operation in flight). Returns (merged output, faults)."""
+    import re
+    per = (runs + nproc - 1) // nproc
+    procs = []
+    for i in range(nproc):
+        s0 = start + i * per
+        n = min(per, start + runs - s0)
+        if n <= 0:
+            break
+        a = [binary] + [str(x) for x in args] + ["--start", str(s0), "--runs", str(n), "--threads", "1"]
+        procs.append((s0, n, subprocess.Popen(a, stdout=subprocess.PIPE, stderr=subprocess.PIPE, text=True)))
+    merged = None
+    faults = []
+    for s0, n, p in procs:
+        so, se = p.communicate()
+        out = None
+        for line in reversed(so.strip().splitlines()):
+            if line.startswith("{"):
+                try:
+                    out = json.loads(line)
+                    break
+                except ValueError:
+                    pass
+        m = re.search(r"FAULT sig=(\d+) run=(\d+) op=(\d+)", so)
+        if m:
+            faults.append(dict(sig=int(m.group(1)), run=int(m.group(2)), op=int(m.group(3))))
+            continue
+        if out is None or p.returncode not in (0, 1):
+            log(se[-3000:])
+            raise HarnessError("sharded worker failed rc=%s" % p.returncode)
+        if merged is None:
+            merged = out
+            merged["state_hashes"] = set(out.get("state_hashes", []))
+        else:
+            for k in ("runs", "ops", "violating_runs"):
+                merged[k] += out[k]
+            merged["wall_ms"] = max(merged["wall_ms"], out["wall_ms"])
+            for k in ("counters", "notes"):
+                for kk, vv in out[k].items():
+                    merged[k][kk] = merged[k].get(kk, 0) + vv
+            merged["state_hashes"] |= set(out.get("state_hashes", []))
+            merged["found"] += out["found"]
+            merged["nondeterministic_seeds"] += out["nondeterministic_seeds"]
+            merged["digest_sum"] = "%016x" % ((int(merged["digest_sum"], 16) + int(out["digest_sum"], 16)) & 0xFFFFFFFFFFFFFFFF)
+            if out.get("dispatches_by_host_level"):
+                for kk, vv in out["dispatches_by_host_level"].items():
+                    merged["dispatches_by_host_level"][kk] = merged["dispatches_by_host_level"].get(kk, 0) + vv
+    if merged is not None:
+        merged["distinct_states"] = len(merged["state_hashes"])
+        merged["state_hashes"] = sorted(merged["state_hashes"])
+    return merged, faults
+
+
+def fault_violation(pid, leg, binary, sd, fault, replay_dir):
+    """Turn a process-killing fault into a replay file holding only the operation in flight; confirm it in a fresh child."""
+    rc, tr, err = run_worker(binary, ["trace", "--dry", "--scenario", leg.scenario, "--mix", leg.mix, "--seed", sd, "--start", fault["run"],
+                                      "--max-ops", leg.max_ops, "--profile", leg.profile, "--host-build", leg.hb])
+    if tr is None:
+        raise HarnessError("could not dump the trace of the faulting run")
+    total = len(tr["ops"])
+    op = tr["ops"][fault["op"]] if fault["op"] < total else None
+    tr["minimised_from"] = total
+    if op is not None:
+        tr["ops"] = [op]
+    kind = tr["setup"].get("enum", {}).get("name", "")
+    tr["violation"] = dict(properties=[pid], invariant="M2", at_op=0,
+                           signature="process killed by signal %d:%s:kind=%s:mode=%s" % (fault["sig"], leg.scenario, op.get("kind") if op else "?", op.get("mode") if op else "?"),
+                           detail="run %d op %d of %s: the process received signal %d (access outside the caller's buffer) %s" % (fault["run"], fault["op"], leg.name(), fault["sig"], kind))
+    path = os.path.join(replay_dir, "%s-fault-%s-%d-%d.json" % (pid, leg.scenario, fault["run"], fault["op"]))
+    json.dump(tr, open(path, "w"))
+    p = subprocess.run([binary, "replay", "--file", path], stdout=subprocess.PIPE, stderr=subprocess.PIPE, text=True)
+    if "FAULT sig=" not in p.stdout:
+        # the single operation alone does not fault: keep the whole run
+        rc, tr2, err = run_worker(binary, ["trace", "--dry", "--scenario", leg.scenario, "--mix", leg.mix, "--seed", sd, "--start", fault["run"],
+                                           "--max-ops", leg.max_ops, "--profile", leg.profile, "--host-build", leg.hb])
+        tr2["ops"] = tr2["ops"][: fault["op"] + 1]
+        tr2["violation"] = tr["violation"]
+        tr2["minimised_from"] = total
+        tr = tr2
+        json.dump(tr, open(path, "w"))
+        p = subprocess.run([binary, "replay", "--file", path], stdout=subprocess.PIPE, stderr=subprocess.PIPE, text=True)
+        if "FAULT sig=" not in p.stdout:
+            raise HarnessError("fault of run %d op %d did not reproduce from its trace" % (fault["run"], fault["op"]))
+    tr["replay"] = path
+    return tr
+
+
 def run_worker(binary, args, timeout=None):
     p = subprocess.run([binary] + [str(a) for a in args], stdout=subprocess.PIPE, stderr=subprocess.PIPE, text=True, timeout=timeout)
     out = None
@@ -147,7 +236,8 @@ def open_finding_for(prop, signature):
 # legs: (host build, profile, scenario, mix, runs quick, runs thorough, max ops)
 # ---------------------------------------------------------------------------------------------
 class Leg:
-    def __init__(self, hb, profile, scenario, mix, quick, thorough, max_ops=48, extra=None, tiers=("quick", "thorough")):
+    def __init__(self, hb, profile, scenario, mix, quick, thorough, max_ops=48, extra=None, tiers=("quick", "thorough"), sharded=False):
+        self.sharded = sharded
         self.hb, self.profile, self.scenario, self.mix = hb, profile, scenario, mix
         self.quick, self.thorough, self.max_ops = quick, thorough, max_ops
         self.extra = extra or []
@@ -315,6 +405,34 @@ prop(
 )
 
 
+prop(
+    "C16",
+    "fault_enumeration",
+    "one case = one operation on buffers placed by the simulator's guard-page arena: (operation kind: apply_keystream x7 ciphers with 0..130 bytes already buffered, "
+    "cipher construction from key/nonce slices x7, hash update x19 with a partly filled buffer, Threefish encrypt/decrypt x3, vector byte load/store x5 machines x5 types x le/be, "
+    "block-API refill/refill4 output arrays and key/nonce, JH compressor block) x placement (slice ends on the last byte before an unmapped page, starts on the first byte after one, "
+    "or lies mid-page between canaries) x start alignment 0..63 x length. Input-only slices are in read-only pages. The fault is a page fault: the result must equal the same "
+    "operation on an ordinary buffer, canaries must be intact, the process must survive. Quick tier: seeded sample of the space plus the enumeration below for every kind. "
+    "Both tiers ENUMERATE COMPLETELY, per (kind, buffered-prefix class, length class, simulated host level), the three placements x all 64 start alignments/length residues "
+    "(192 cases each); thorough adds more length classes via a larger sampled batch in release and overflow-checked builds and on the portable build. "
+    "distinct_nontrivial = distinct (kind, placement, start alignment, length class, prefix class) tuples executed",
+    [
+        "guard pages detect an access that crosses the slice end placed at a page edge (hence every operation runs in both edge placements); an out-of-bounds access that stays inside the mapped page is visible only as a changed canary (writes) or not at all (reads)",
+        "data contents, keys and nonces are sampled, placements/alignments/length residues are enumerated",
+        "x86 vector code cannot run under Miri (cfg(miri) selects the portable backend); the optional Miri pass is described in DESIGN.md",
+    ],
+    [
+        Leg("std", "release", "mem", "C16enum", -1, -1, max_ops=192, sharded=True),
+        Leg("std", "checked", "mem", "C16enum", 0, -1, max_ops=192, sharded=True),
+        Leg("std", "release", "mem", "C16", 60000, 1500000, max_ops=40, sharded=True),
+        Leg("std", "checked", "mem", "C16", 20000, 600000, max_ops=40, sharded=True),
+        Leg("portable", "release", "mem", "C16enum", 0, -1, max_ops=192, sharded=True),
+        Leg("portable", "release", "mem", "C16", 0, 300000, max_ops=40, sharded=True),
+    ],
+    [REAL, STUB],
+)
+
+
 # ---------------------------------------------------------------------------------------------
 def run_property(pid, tier):
     spec = PROPS[pid]
@@ -332,6 +450,7 @@ def run_property(pid, tier):
     others = []
     total_runs = total_ops = 0
     harness_error = None
+    enumerated = []
     acc = dict(total_runs=0, total_ops=0, states=states, counters=counters, notes=notes, samples=samples, legs_out=legs_out,
                violations=violations, known=known, others=others)
 
@@ -367,12 +486,47 @@ def run_property(pid, tier):
         if tier not in leg.tiers or harness_error:
             continue
         runs = leg.quick if tier == "quick" else leg.thorough
-        if runs <= 0:
+        if runs == 0:
             continue
         binary = build(leg.hb, leg.profile)
+        if runs < 0:  # complete enumeration: the worker knows the size of the space
+            rc, info, err = run_worker(binary, ["info"])
+            if info is None:
+                harness_error = "info failed"
+                break
+            runs = info["mem_enum_combos"]
+            enumerated.append(dict(leg=leg.name(), combinations=runs, cases=runs * 192))
         args = ["run", "--scenario", leg.scenario, "--mix", leg.mix, "--seed", sd, "--runs", runs, "--threads", NCPU,
                 "--max-ops", leg.max_ops, "--profile", leg.profile, "--host-build", leg.hb, "--replay-dir", replay_dir,
                 "--states", "1"] + leg.extra
+        if leg.sharded:
+            args = [a for a in args]
+            i = args.index("--threads")
+            del args[i:i + 2]
+            i = args.index("--runs")
+            del args[i:i + 2]
+            out, faults = run_sharded(binary, args, 0, runs, NCPU)
+            seen = set()
+            for ft in faults:
+                f = fault_violation(pid, leg, binary, sd, ft, replay_dir)
+                sig = f["violation"]["signature"]
+                if sig in seen:
+                    continue
+                seen.add(sig)
+                kf = open_finding_for(pid, sig)
+                if kf:
+                    known.append((kf, f))
+                else:
+                    violations.append(f)
+            if out is None:
+                if not faults:
+                    harness_error = "no output from sharded workers of %s" % leg.name()
+                continue
+            if out.get("nondeterministic_seeds"):
+                harness_error = "non-deterministic seeds: %s" % out["nondeterministic_seeds"][:5]
+                break
+            absorb(pid, leg.name(), out)
+            continue
         rc, out, err = run_worker(binary, args)
         if out is None or rc not in (0, 1):
             log(err[-4000:])
@@ -391,7 +545,11 @@ def run_property(pid, tier):
             harness_error = str(e)
     total_runs, total_ops = acc["total_runs"], acc["total_ops"]
     wall = time.time() - t0
-    return finish(pid, tier, sd, spec, wall, total_runs, total_ops, states, counters, notes, samples, legs_out, violations, known, others, harness_error)
+    extra = None
+    if enumerated:
+        extra = dict(enumerated_completely=enumerated, exhaustive=True,
+                     exhaustive_scope="placement x start alignment/length residue (3 x 64) for every (operation kind, prefix class, length class, host level) combination; data contents are sampled")
+    return finish(pid, tier, sd, spec, wall, total_runs, total_ops, states, counters, notes, samples, legs_out, violations, known, others, harness_error, extra)
 
 
 def read_digests(path):
@@ -557,6 +715,16 @@ def replay(pid, path):
     hb = meta.get("host_build", "std")
     profile = meta.get("profile", "release")
     binary = build(hb, profile)
+    pr = subprocess.run([binary, "replay", "--file", path], stdout=subprocess.PIPE, stderr=subprocess.PIPE, text=True)
+    if "FAULT sig=" in pr.stdout:
+        sig = j.get("violation", {}).get("signature", "")
+        kf = open_finding_for(pid, sig)
+        if kf:
+            print("KNOWN-FINDING: property=%s %s" % (pid, kf.get("what")))
+            return 0
+        print("VIOLATION property=%s replay=%s" % (pid, path))
+        print("  " + pr.stdout.strip().splitlines()[-1])
+        return 1
     rc, out, err = run_worker(binary, ["replay", "--file", path])
     if out is None:
         log(err[-3000:])
